@@ -50,7 +50,10 @@ def _mk():
     Ap = pd.DataFrame({"a": [4.5, 4.0, 0.5, 0.0, 0.5, 0.0, 4.0, 4.5]})
     B = pd.DataFrame({"a": [0.0, 1.0, 0.0, 5.0, 6.0, 5.0], "b": [2.0, 2.5, 2.0, 2.5, 9.0, 2.0]})
     U = pd.DataFrame({"a": [4.0, 0.0, 0.5]}, index=pd.RangeIndex(8, 11))
-    d = {"A": A, "Ap": Ap, "B": B, "U": U}
+    # high level, small spread (|mean| > 100 * std) and a constant non-zero second data set: "numerical stability"
+    # shortcuts (centring, rescaling) that touch the caller's data in place show on such data
+    Hh = pd.DataFrame({"a": [1013.0, 1012.5, 1013.5, 1013.0, 1019.0, 1018.5, 1019.5, 1019.0]})
+    d = {"A": A, "Ap": Ap, "B": B, "U": U, "H": Hh}
     d["A+U"] = pd.concat([A, U])
     d["Ap+U"] = pd.concat([Ap, U])
     return d
@@ -156,7 +159,7 @@ def worlds():
     W["mw"] = (lambda: {"mw": cd.MovingWindow(cs.CUSUM(), bandwidth=2, threshold_scale=0.1)}, {
         "sets": [("mw", "bandwidth", 3), ("mw", "threshold_scale", None), ("mw", "change_score", Spec("L2Cost", param=None)),
                  ("mw", "change_score__param", 1.0, "L2Cost")],
-        "data": ("A", "Ap", "B"), "deep": True})
+        "data": ("A", "Ap", "H"), "deep": True})
 
     W["sbs-tuned"] = (lambda: {"sbs": cd.SeededBinarySegmentation(co.L2Cost(), threshold_scale=None, level=0.3, min_segment_length=1,
                                                                   max_interval_length=8)}, {
@@ -232,7 +235,18 @@ def worlds():
         "sets": [("s", "cost__param", (0.0, 2.0), "GaussianCovCost"), ("s", "cost", Spec("L2Cost", param=None))], "data": ("A", "Ap", "B"), "deep": True})
     W["pelt-cov"] = (lambda: {"pelt": cd.PELT(co.GaussianCovCost(), penalty_scale=0.05, min_segment_length=3)}, {
         "sets": [("pelt", "cost__param", (0.0, 2.0), "GaussianCovCost"), ("pelt", "penalty_scale", 0.5)], "data": ("A", "Ap", "B")})
-    W["cusum"] = (lambda: {"s": cs.CUSUM()}, {"sets": [], "data": ("A", "Ap", "B"), "deep": True})
+    W["cusum"] = (lambda: {"s": cs.CUSUM()}, {"sets": [], "data": ("A", "H", "B"), "deep": True})
+    W["sbs-cusum"] = (lambda: {"sbs": cd.SeededBinarySegmentation(threshold_scale=0.3, min_segment_length=1, max_interval_length=8)}, {
+        "sets": [("sbs", "growth_factor", 2.0)], "data": ("A", "H")})
+    # two instances of one class: state shared between instances (class attributes, module-level memos)
+    for cname, mk in (("l2cost", co.L2Cost), ("gvcost", co.GaussianVarCost), ("covcost", co.GaussianCovCost), ("cusum", cs.CUSUM),
+                      ("l2saving", asc.L2Saving)):
+        W["two-" + cname] = ((lambda mk=mk: {"s": mk(), "t": mk()}), {"sets": [], "data": ("A", "B")})
+    W["two-localscore-cov"] = (lambda: {"s": asc.LocalAnomalyScore(co.GaussianCovCost()), "t": asc.LocalAnomalyScore(co.GaussianCovCost())},
+                               {"sets": [], "data": ("Ap", "B")})
+    W["two-pelt-cov"] = (lambda: {"p1": cd.PELT(co.GaussianCovCost(), penalty_scale=0.05, min_segment_length=3),
+                                  "p2": cd.PELT(co.GaussianCovCost(), penalty_scale=0.05, min_segment_length=3), "s": co.GaussianCovCost()},
+                         {"sets": [], "data": ("Ap", "B")})
     W["changescore"] = (lambda: {"s": cs.ChangeScore(co.L2Cost())}, {
         "sets": [("s", "cost__param", 1.0, "L2Cost"), ("s", "cost", Spec("GaussianVarCost", param=None)), ("s", "cost__param", (0.0, 2.0), "GaussianVarCost")],
         "data": ("A", "Ap", "B"), "deep": True})
@@ -612,7 +626,7 @@ class Explorer:
 _MISSING = object()
 
 
-BIG = ("shared-cost", "sta", "saving-shared", "mw-cbs-shared", "sta-mw")
+BIG = ("shared-cost", "sta", "saving-shared", "mw-cbs-shared", "sta-mw", "two-pelt-cov")
 
 
 def depth_for(wname, tier):
